@@ -13,6 +13,8 @@ CONSTANTS
   MaxSpur = 3
   Endings = {"ctxdrop"}
   SeiSet = {"never"}
+  ReR = {1}
+  ReM = {0}
   RecordSched = FALSE
   Dev = {}
 VIEW view
